@@ -19,7 +19,12 @@ CTRL = [('newproc',), ('tick',), ('forget',), ('bytecode',)]
 CLOCK0 = 1500000000
 
 
-def alphabet(tier):
+BIG = [('L', 'def'), ('L2', 'def'), ('L', 'uonly')]     # 41 fields: generated code of more than 4 KiB per direction, a cache file of more than 8 KiB
+
+
+def alphabet(tier, big=False):
+    if big:
+        return [('define',) + d for d in BIG] + CTRL
     defs = DEFS if tier == 'thorough' else DEFS[:7] + DEFS[9:]
     return [('define',) + d for d in defs] + CTRL
 
@@ -120,11 +125,13 @@ def signature(hist, pi, i, decl, why):
 
 def _shard(shard, nshards, payload):
     st = Stats()
-    ops = alphabet(payload['tier'])
+    ops = alphabet(payload['tier'], payload.get('big', False))
     depth = payload['depth']
     idx = 0
     replayed = 0
     seeds = [(), (('define', 'A', 'def'), ('newproc',)), (('define', 'A2', 'noann'), ('newproc',), ('define', 'A2', 'noann'), ('newproc',))]
+    if payload.get('big'):
+        seeds = [(), (('define', 'L', 'def'), ('newproc',), ('define', 'L', 'def'), ('newproc',))]
     for d, pre, tail in [(d, pre, tail) for pre in seeds for d in range(1, depth + 1) for tail in itertools.product(ops, repeat=d)]:
         for hist in (pre + tail,):
             if hist[-1][0] != 'define':
@@ -214,6 +221,7 @@ def real_shard(shard, nshards, payload):
 def run(tier):
     depth = 3 if tier == 'quick' else 4
     st = common.merge_all(common.run_sharded(_shard, {'tier': tier, 'depth': depth, 'replays': 3 if tier == 'quick' else 12}))
+    st.merge(common.merge_all(common.run_sharded(_shard, {'tier': tier, 'depth': depth + 1, 'replays': 2, 'big': True})))
     st.merge(common.merge_all(common.run_sharded(real_shard, {'tier': tier})))
     if not st.samples:
         st.sample({'history': describe([('define', 'A', 'def'), ('forget',), ('define', 'A2', 'def')])})
@@ -224,11 +232,11 @@ def run(tier):
         'real_process_replays': st.n.get('real_replays', 0), 'definitions_checked': st.n.get('definitions', 0),
         'real_process_histories_with_mixed_optimisation_levels': st.n.get('real_histories', 0), 'real_definitions': st.n.get('real_definitions', 0),
         'rule': 'all histories of length <=%d (also started from a cache directory that earlier processes filled for A resp. A2 with bytecode) ending in a definition over %d operations (define x %d declaration/option pairs incl. two declarations whose '
-                'generated source has the same length, new process, clock tick, bytecode toggle, forget sources) on real files with harness time stamps '
+                'generated source has the same length, new process, clock tick, bytecode toggle, forget sources), and all histories one longer over two LONG declarations (41 fields, a cache file of more than 8 KiB) that differ in the byte order of their last field, on real files with harness time stamps '
                 '(everything within one second unless a tick occurs); every definition and every class still alive in the process checked on a battery '
                 'against its own declaration; transitions = interposed file-system steps; states = distinct final (directory contents+mtimes, clock)' % (
                     depth, len(alphabet(tier)), len(alphabet(tier)) - len(CTRL)),
-        'exhaustive': True, 'bounds': {'depth': depth}, 'distinct_outcomes': st.count('outcomes'), 'samples': st.samples,
+        'exhaustive': True, 'bounds': {'depth': depth, 'depth_for_the_long_declarations': depth + 1}, 'distinct_outcomes': st.count('outcomes'), 'samples': st.samples,
     }
     errs = [n for n in st.notes if n.startswith('HARNESS')]
     return {'stats': st, 'coverage': cov, 'harness_errors': errs,
